@@ -186,6 +186,9 @@ def run(ctx):
     ctx.rule("C06.R4", "parse_json_inputs inserts every (key, value) of an input object: the insert is conditional only on the Ok of the value conversion, keyed by the member's own key", floor=1)
     member_insert_rule(ctx, cli, "C06.R4")
 
+    # ---- R9 the JSON text is what serde_json wrote / what the user supplied
+    json_text_rule(ctx, "C06.R9", [ctx.cli, ctx.wasm, core])
+
     # ---- R5 reserved function-object key is one literal (shared with C05.L8)
     ctx.rule("C06.R5", "the function-object key probed by from_json and inserted by to_json is one and the same string literal", floor=3)
     keys = []
@@ -275,3 +278,57 @@ def output_file_rule(ctx, rid, cli):
         app = any(n == "append" for n in oo)
         ok6 = (bool(creates) and not oo) or (("open" in oo) and trunc and not app)
         ctx.inst(rid, "write_outputs#open", ok6, "file opened through %s; truncating: %s, appending: %s" % (sorted(set(names)), bool(creates) or trunc, app), wo.loc(opens[0]))
+
+
+REWRITE = {"replace", "replacen", "trim", "trim_start", "trim_end", "trim_matches", "to_lowercase", "to_uppercase", "truncate", "retain", "remove", "insert_str",
+           "insert", "pop", "drain", "replace_range", "split_off", "chars", "bytes", "split", "lines", "escape_default", "escape_debug", "escape_unicode", "strip_prefix", "strip_suffix"}
+LOSSY = ("from_utf8_lossy", "to_string_lossy", "from_utf8_unchecked", "from_utf16_lossy")
+
+
+def json_text_rule(ctx, rid, crates):
+    """the text between the process boundary and serde_json is not touched: (a) what serde_json::to_string returned is written as
+    it is, (b) no lossy byte-to-text decoding exists on the input path"""
+    ctx.rule(rid, "JSON text crosses the process boundary unmodified: the string serde_json produced is written without being rewritten, and input bytes are never decoded lossily (a replaced, dropped or U+FFFD-substituted character is a different string after the round trip)", floor=2)
+    n_ser = 0
+    for cr in crates:
+        for fname, f in sorted(cr.hir.items()):
+            if f.get("body") is None or "::tests::" in fname or "parse::rules" in fname:
+                continue
+            sers = [x for x in H.walk(f["body"]) if H.kind(x) == "Call" and "serde_json" in (x.get("def") or "") and H.last(x.get("def") or "") in ("to_string", "to_string_pretty", "to_vec", "to_vec_pretty")]
+            if sers:
+                n_ser += 1
+                # locals holding the produced text: bound from the call (let / if-let / match arm), and locals derived from those
+                derived = set()
+                for x in H.walk(f["body"]):
+                    init = None
+                    pat = None
+                    if isinstance(x, dict) and x.get("k") == "Let" and x.get("init") is not None:
+                        init, pat = x["init"], x["pat"]
+                    elif H.kind(x) == "LetExpr":
+                        init, pat = x["init"], x["pat"]
+                    elif H.kind(x) == "Match":
+                        if any(any(y is s_ for y in H.walk(x["scrut"])) for s_ in sers):
+                            for a in x["arms"]:
+                                derived |= set(H.pat_binds(a["pat"]))
+                        continue
+                    if init is not None and any(any(y is s_ for y in H.walk(init)) for s_ in sers):
+                        derived |= set(H.pat_binds(pat))
+                for _ in range(4):
+                    for x in H.walk(f["body"]):
+                        if isinstance(x, dict) and x.get("k") == "Let" and x.get("init") is not None and any(H.path_local(y) in derived for y in H.walk(x["init"]) if H.kind(y) == "Path"):
+                            derived |= set(H.pat_binds(x["pat"]))
+                bad = []
+                for x in H.walk(f["body"]):
+                    if H.kind(x) == "MethodCall" and x["name"] in REWRITE:
+                        r = H.strip(x["recv"])
+                        direct = any(any(y is s_ for y in H.walk(r)) for s_ in sers)
+                        if direct or any(H.path_local(y) in derived for y in H.walk(r) if H.kind(y) == "Path"):
+                            rt = (x.get("recv_ty") or r.get("ty") or "")
+                            if "String" in rt or "str" in rt or "Vec<u8>" in rt:
+                                bad.append("%s() at %s" % (x["name"], H.loc(x)))
+                ctx.inst(rid, "%s#serialised-text-untouched" % fname.replace("blots_core::", ""), not bad, "text produced by serde_json is held in %s; rewritten by: %s" % (sorted(derived) or "no local", bad or "nothing"), H.loc(sers[0]))
+            lossy = [x for x in H.walk(f["body"]) if H.kind(x) in ("Call", "MethodCall") and (H.last(x.get("def") or "") in LOSSY or x.get("name") in LOSSY)
+                     and not (x.get("sp") and x["sp"][5]) and "::_::<impl " not in fname]   # derive-generated visitors decode bytes only to word an error message
+            if lossy:
+                ctx.inst(rid, "%s#lossy-decoding" % fname.replace("blots_core::", ""), False, "lossy decoding of bytes to text: %s" % [H.loc(x) for x in lossy], H.loc(lossy[0]))
+    ctx.inst(rid, "lossy-decoding#none", True, "every function of the three crates was scanned for from_utf8_lossy / to_string_lossy / from_utf8_unchecked; %d function(s) serialise with serde_json" % n_ser, None)
